@@ -46,7 +46,7 @@ fn make_plan<T: Flt>(rng: &mut Rng, x: &[T], out_of_range: bool) -> Plan<T> {
         (QKind::Dyn, vec![3, 2]),
         (QKind::S1, vec![0]),
     ];
-    if rng.chance(0.15) {
+    if !cfg!(miri) && rng.chance(0.15) {
         // big query arrays (hundreds to thousands of elements)
         shapes.push((QKind::S1, vec![*rng.pick(&[257usize, 1025, 4099])]));
         shapes.push((QKind::S2, vec![33, 40]));
